@@ -12,9 +12,10 @@ import json, sys, subprocess, os, re, tempfile
 WIDTH = {'uint64_t': 64, 'unsigned long': 64, 'unsigned long long': 64, 'secp256k1_uint128': 128, 'unsigned __int128': 128, '__uint128_t': 128, 'uint128_t': 128,
          'uint32_t': 32, 'unsigned int': 32, 'size_t': 64, 'unsigned char': 8, 'uint8_t': 8, 'uint16_t': 16}
 class Unsupported(Exception): pass
+NOOP_CALLS = ('secp256k1_scalar_verify', 'secp256k1_fe_verify', 'secp256k1_fe_verify_magnitude', 'secp256k1_ge_verify', 'secp256k1_gej_verify')
 
 def tname(t):
-    t = t.replace('const ', '').replace(' const', '').strip()
+    t = t.replace('const ', '').replace(' const', '').replace('volatile ', '').strip()
     return t
 def width(t):
     t = tname(t)
@@ -36,7 +37,8 @@ def lit(n):
     return n
 
 class Fn:
-    def __init__(s, decl, short):
+    def __init__(s, decl, short, callees=None):
+        s.callees = callees or {}
         s.d = decl; s.short = short; s.lines = []; s.consts = []; s.ins = []; s.outs = {}; s.params = {}
         s.arr_in = {}; s.locals = set(); s.constnames = {}
     def var(s, name): return s.constnames.get(name, name)
@@ -62,24 +64,51 @@ class Fn:
             if ck == 'IntegralCast':
                 wi = width(inner['type']['qualType']); wo = width(n['type']['qualType'])
                 if wi < 0 or wo < 0:
-                    if inner['kind'] == 'IntegerLiteral': return e      # literal: value is the same
-                    raise Unsupported('signed cast')
+                    if lit(inner)['kind'] == 'IntegerLiteral' and not e.startswith('(-'): return e      # non-negative literal: value is the same
+                    if wo > 0: return '(%s %s)' % (wrapfn(wo), e)      # signed -> unsigned: value mod 2^w (two's complement)
+                    if wi > 0 and -wo > wi: return e                      # unsigned -> wider signed
+                    if wi < 0 and wo <= wi: return e                      # signed -> wider signed
+                    return '(sN %d %s)' % (-wo, e)                        # to a narrower/equal signed type: two's complement (gcc/clang)
                 if wo >= wi: return e
                 return '(%s %s)' % (wrapfn(wo), e)
             return e
         if k == 'IntegerLiteral': return n['value']
         if k == 'DeclRefExpr': return s.var(n['referencedDecl']['name'])
+        if k == 'UnaryOperator':
+            op = n['opcode']; w = width(n['type']['qualType']); a = s.ex(n['inner'][0])
+            if op == '~':
+                if w < 0: return '(- %s - 1)' % a
+                return '(%d - %s)' % ((1 << w) - 1, a)
+            if op == '-': return '(- %s)' % a if w < 0 else '(%s (- %s))' % (wrapfn(w), a)
+            if op == '!': return '(b2z (%s =? 0))' % a
+            if op == '+': return a
+            if op == '*':      # dereference of a scalar pointer parameter (int *r)
+                t = strip(n['inner'][0])
+                if t['kind'] == 'DeclRefExpr': nm = t['referencedDecl']['name']; s.ptr_in.add(nm); return nm + '_v'
+            raise Unsupported('unary ' + op)
+        if k == 'MemberExpr':
+            return s.member(n, write=False)
         if k == 'ArraySubscriptExpr':
+            base = strip(n['inner'][0])
+            if base['kind'] == 'MemberExpr': return s.member(n, write=False)
             a, i = s.arr(n)
-            if a in s.outs_arrays: return '%s%d' % (a, i)          # reading back an output limb already written
+            if (a, i) in s.written: return '%s%d' % (a, i)          # reading back a limb already written
             s.arr_in.setdefault(a, set()).add(i); return '%s%d' % (a, i)
         if k == 'BinaryOperator':
             op = n['opcode']; a = s.ex(n['inner'][0]); b = s.ex(n['inner'][1]); w = width(n['type']['qualType'])
+            if op in ('==', '!=', '<', '>', '<=', '>='):
+                c = {'==': '(%s =? %s)', '!=': 'negb (%s =? %s)', '<': '(%s <? %s)', '>': '(%s >? %s)', '<=': '(%s <=? %s)', '>=': '(%s >=? %s)'}[op] % (a, b)
+                return '(b2z (%s))' % c
+            if w < 0:
+                if op in ('+', '-', '*'): return '(%s %s %s)' % (a, op, b)      # signed: mathematical value (overflow would be UB)
+                if op in ('<<', '>>'): raise Unsupported('shift of a signed value')
             return s.binop(op, a, b, w, n['inner'][1])
         if k == 'CallExpr':
             fn = s.callee(n); args = n['inner'][1:]
             if fn == 'secp256k1_u128_to_u64': return '(u64 %s)' % s.var(s.addr(args[0]))
             if fn == 'secp256k1_u128_hi_u64': return '(%s / 2^64)' % s.var(s.addr(args[0]))
+            if fn in s.callees:      # call to another translated function that returns a value: f args
+                return '(%s %s)' % (fn.replace('secp256k1_', ''), ' '.join(s.call_args(fn, args)))
             raise Unsupported('call in expression: ' + fn)
         raise Unsupported('expression ' + k)
     def binop(s, op, a, b, w, rhs_node=None):
@@ -96,11 +125,41 @@ class Fn:
             if not (0 <= sh < abs(w)): raise Unsupported('shift out of range')
             return '(%s (%s * 2^%d))' % (wrapfn(w), a, sh) if op == '<<' else '(%s / 2^%d)' % (a, sh)
         raise Unsupported('operator ' + op)
+    def member(s, n, write):
+        """p->f[i] or p->f with p a pointer parameter -> scalar variable p_f<i>"""
+        idx = ''
+        if n['kind'] == 'ArraySubscriptExpr':
+            i = lit(n['inner'][1])
+            if i['kind'] != 'IntegerLiteral': raise Unsupported('variable index')
+            idx = i['value']; m = strip(n['inner'][0])
+        else: m = n
+        if m['kind'] != 'MemberExpr': raise Unsupported('member access shape')
+        base = strip(m['inner'][0])
+        if base['kind'] != 'DeclRefExpr': raise Unsupported('nested member access')
+        name = '%s_%s%s' % (base['referencedDecl']['name'], m['name'], idx)
+        key = (base['referencedDecl']['name'], m['name'], int(idx) if idx != '' else -1)
+        if write: s.mem_out.setdefault(base['referencedDecl']['name'], set()).add((m['name'], key[2])); s.written.add(key)
+        elif key not in s.written: s.mem_in.setdefault(base['referencedDecl']['name'], set()).add((m['name'], key[2]))
+        return name
+    def call_args(s, fn, args):
+        """arguments of a call to a translated function: pointer-to-struct arguments are expanded to the callee's member list"""
+        out = []
+        for a, spec in zip(args, s.callees[fn]):
+            if spec is None: out.append(s.ex(a))
+            else:
+                base = strip(a)
+                if base['kind'] != 'DeclRefExpr': raise Unsupported('struct argument shape')
+                for (f, i) in spec:
+                    key = (base['referencedDecl']['name'], f, i)
+                    if key not in s.written: s.mem_in.setdefault(base['referencedDecl']['name'], set()).add((f, i))
+                    out.append('%s_%s%s' % (base['referencedDecl']['name'], f, '' if i < 0 else i))
+        return out
     def let(s, name, e):
         if e == name: return
         s.lines.append('  let %s := %s in' % (name, e))
     def stmt(s, n):
         k = n['kind']
+        if getattr(s, 'returned', False): raise Unsupported('statement after return')
         if k == 'NullStmt': return
         if k == 'CompoundStmt':
             for c in n.get('inner', []): s.stmt(c)
@@ -127,34 +186,59 @@ class Fn:
                 d = s.addr(args[0]); r = lit(args[1])
                 if r['kind'] != 'IntegerLiteral' or not (0 <= int(r['value']) < 128): raise Unsupported('u128_rshift amount')
                 s.let(d, '(%s / 2^%s)' % (d, r['value'])); return
+            if fn in NOOP_CALLS: return      # production builds: empty bodies ((void)arg)
             raise Unsupported('call statement: ' + fn)
         if k == 'BinaryOperator' and n['opcode'] == '=':
             lhs = strip(n['inner'][0]); e = s.ex(n['inner'][1])
             if lhs['kind'] == 'DeclRefExpr': s.let(lhs['referencedDecl']['name'], e)
+            elif lhs['kind'] == 'ArraySubscriptExpr' and strip(lhs['inner'][0])['kind'] == 'MemberExpr': s.let(s.member(lhs, write=True), e)
+            elif lhs['kind'] == 'MemberExpr': s.let(s.member(lhs, write=True), e)
             elif lhs['kind'] == 'ArraySubscriptExpr':
-                a, i = s.arr(lhs); s.outs.setdefault(a, set()).add(i); s.outs_arrays.add(a); s.let('%s%d' % (a, i), e)
+                a, i = s.arr(lhs); s.outs.setdefault(a, set()).add(i); s.outs_arrays.add(a); s.written.add((a, i)); s.let('%s%d' % (a, i), e)
+            elif lhs['kind'] == 'UnaryOperator' and lhs['opcode'] == '*' and strip(lhs['inner'][0])['kind'] == 'DeclRefExpr':
+                nm = strip(lhs['inner'][0])['referencedDecl']['name']; s.ptr_out.add(nm); s.let(nm + '_v', e)
             else: raise Unsupported('assignment target')
+            return
+        if k == 'CStyleCastExpr' and n['type']['qualType'] == 'void': return
+        if k == 'DoStmt':      # do { } while (0) left by disabled check macros
+            body, cond = n['inner'][0], lit(n['inner'][1])
+            if cond['kind'] == 'IntegerLiteral' and cond['value'] == '0': s.stmt(body); return      # executes exactly once
+            raise Unsupported('loop')
+        if k == 'ReturnStmt':
+            if n.get('inner'): s.let('ret', s.ex(n['inner'][0])); s.has_ret = True
+            s.returned = True
             return
         if k == 'CompoundAssignOperator':
             lhs = strip(n['inner'][0]); op = n['opcode'][:-1]; w = width(n['type']['qualType'])
-            if lhs['kind'] != 'DeclRefExpr': raise Unsupported('compound assignment target')
-            nm = lhs['referencedDecl']['name']
-            s.let(nm, s.binop(op, nm, s.ex(n['inner'][1]), w, n['inner'][1])); return
+            if lhs['kind'] == 'DeclRefExpr': nm = lhs['referencedDecl']['name']; cur = s.var(nm)
+            elif lhs['kind'] in ('ArraySubscriptExpr', 'MemberExpr'):
+                cur = s.member(lhs, write=False); nm = s.member(lhs, write=True)
+            else: raise Unsupported('compound assignment target')
+            s.let(nm, s.binop(op, cur, s.ex(n['inner'][1]), w, n['inner'][1])); return
         raise Unsupported('statement ' + k)
     def run(s):
-        s.outs_arrays = set()
+        s.outs_arrays = set(); s.written = set(); s.mem_in = {}; s.mem_out = {}; s.ptr_in = set(); s.ptr_out = set(); s.has_ret = False; s.returned = False
         body = [c for c in s.d['inner'] if c['kind'] == 'CompoundStmt'][0]
         params = [c for c in s.d['inner'] if c['kind'] == 'ParmVarDecl']
         s.stmt(body)
-        ins = []
+        ins = []; s.param_spec = []
+        def mname(nm, f, i): return '%s_%s%s' % (nm, f, '' if i < 0 else i)
         for p in params:
             nm = p['name']
-            if nm in s.arr_in and nm not in s.outs: ins += ['%s%d' % (nm, i) for i in sorted(s.arr_in[nm])]
-            elif nm in s.outs: pass
-            elif '*' in p['type']['qualType']: raise Unsupported('pointer parameter %s neither read at fixed indices nor written' % nm)
-            else: ins.append(nm)
+            if nm in s.mem_in or nm in s.mem_out:
+                spec = sorted(s.mem_in.get(nm, set())); ins += [mname(nm, f, i) for (f, i) in spec]; s.param_spec.append(spec)
+            elif nm in s.arr_in: ins += ['%s%d' % (nm, i) for i in sorted(s.arr_in[nm])]; s.param_spec.append(None)
+            elif nm in s.outs: s.param_spec.append(None)
+            elif nm in s.ptr_in or nm in s.ptr_out:
+                if nm in s.ptr_in: ins.append(nm + '_v')
+                s.param_spec.append(None)
+            elif '*' in p['type']['qualType']: raise Unsupported('pointer parameter %s neither read at fixed positions nor written' % nm)
+            else: ins.append(nm); s.param_spec.append(None)
         outs = []
         for a in sorted(s.outs): outs += ['%s%d' % (a, i) for i in sorted(s.outs[a])]
+        for a in sorted(s.mem_out): outs += [mname(a, f, i) for (f, i) in sorted(s.mem_out[a])]
+        for a in sorted(s.ptr_out): outs.append(a + '_v')
+        if s.has_ret: outs.append('ret')
         # an array that is both read and written at the same indices (in-place) is not in the subset
         for a in s.outs:
             if a in s.arr_in and False: raise Unsupported('in-place array ' + a)
@@ -165,7 +249,10 @@ class Fn:
         o.append('Definition %s_k {T} (%s : Z) (k : %s) : T :=' % (s.short, ' '.join(ins), kty))
         o += s.lines
         o.append('  k %s.' % ' '.join(outs))
-        o.append('Definition %s (%s : Z) := %s_k %s (fun %s => [%s]).' % (s.short, ' '.join(ins), s.short, ' '.join(ins), ' '.join(outs), '; '.join(outs)))
+        if s.has_ret and len(outs) == 1:
+            o.append('Definition %s (%s : Z) : Z := %s_k %s (fun ret => ret).' % (s.short, ' '.join(ins), s.short, ' '.join(ins)))
+        else:
+            o.append('Definition %s (%s : Z) := %s_k %s (fun %s => [%s]).' % (s.short, ' '.join(ins), s.short, ' '.join(ins), ' '.join(outs), '; '.join(outs)))
         o.append('Definition %s_inputs : nat := %d.' % (s.short, len(ins)))
         return '\n'.join(o).replace('(fun', '(fun').replace('=> [', '=> (cons_list [').replace(']).', ']))).') if False else '\n'.join(o), ins, outs
 
@@ -189,11 +276,15 @@ def ast_of(repo, fn, defines=()):
     finally:
         os.unlink(tu.name)
 
-def translate(repo, fn, defines=()):
+def translate(repo, fn, defines=(), callees=None, requires=()):
+    """callees: {callee C name: parameter spec list} for value-returning functions already translated"""
     d = ast_of(repo, fn, defines)
     short = fn.replace('secp256k1_', '')
-    f = Fn(d, short)
+    f = Fn(d, short, callees)
     text, ins, outs = f.run()
+    if requires:
+        text = text.replace('Require Import Kernel.CSem.', 'Require Import Kernel.CSem %s.' % ' '.join('Gen.' + r for r in requires))
+    translate.last = f
     return text, ins, outs
 
 if __name__ == '__main__':
